@@ -4,6 +4,7 @@ Props/C10.lean.  All are built with the model's public operations only.
 -/
 import CelerVerif.Lemmas.CsgInv
 import CelerVerif.Lemmas.CsgFlag
+import CelerVerif.Lemmas.CsgDeMorganAlias
 
 namespace CelerVerif.Csg
 
@@ -85,5 +86,75 @@ def ReplResult.isOk : ReplResult → Bool
 /-- `replace_and_simplify(tree, 13, False)` then `replace_and_simplify(tree, 15, False)` -/
 def replaceOrderStep1 : ReplResult := replaceAndSimplify replaceOrderWitness 13 false
 def replaceOrderStep2 : ReplResult := replaceAndSimplify replaceOrderStep1.tree 15 false
+
+/-- the error message of a failed transformation (`none` when it returned a tree) -/
+def dmError : Except String Tree → Option String
+  | .error e => some e
+  | .ok _ => none
+
+theorem dmError_some {r : Except String Tree} {e : String} (h : dmError r = some e) :
+    r = .error e := by
+  cases r with
+  | error e' => simp [dmError] at h; rw [h]
+  | ok t => simp [dmError] at h
+
+/-- decidable form of `Struct` for concrete trees -/
+def StructP (t : Tree) : Prop :=
+  t.get 0 = .tru ∧ t.get 1 = .negated 0 ∧ 2 ≤ t.size ∧ t.size ≤ invalid ∧
+  (∀ i, i < t.size → ∀ c ∈ (t.get i).children, c < t.size) ∧
+  (∀ e ∈ t.ids, e.2 < t.size) ∧ (∀ e ∈ t.ids, ∀ c ∈ e.1.children, c < t.size)
+
+instance (t : Tree) : Decidable (StructP t) := by unfold StructP; infer_instance
+
+theorem struct_of_P {t : Tree} (h : StructP t) : Struct t :=
+  ⟨h.1, h.2.1, h.2.2.1, h.2.2.2.1, h.2.2.2.2.1, h.2.2.2.2.2.1, h.2.2.2.2.2.2⟩
+
+/-- decidable form of `DMPreA` for concrete trees -/
+def DMPreAP (t : Tree) : Prop :=
+  (∀ n ∈ t.nodes, n ≠ Node.fls) ∧
+  (∀ i, i < t.size → ∀ c, c < t.size → dealiased t i = .negated c →
+    isNegated (dealiased t c) = false)
+
+instance (t : Tree) : Decidable (DMPreAP t) := by unfold DMPreAP; infer_instance
+
+theorem dmPreA_of_P {t : Tree} (s : Struct t) (hso : Sorted t) (h : DMPreAP t) : DMPreA t where
+  noFls := by
+    intro i hg
+    by_cases hi : i < t.size
+    · have hm : t.get i ∈ t.nodes := by
+        unfold Tree.get
+        rw [List.getD_eq_getElem?_getD, List.getElem?_eq_getElem (by simpa [Tree.size] using hi)]
+        exact List.getElem_mem _
+      exact h.1 _ hm hg
+    · have : t.get i = .tru := by
+        unfold Tree.get
+        rw [List.getD_eq_getElem?_getD, List.getElem?_eq_none (by simpa [Tree.size] using hi)]
+        rfl
+      rw [this] at hg; cases hg
+  noDoubleNeg := by
+    intro i c hi hg
+    have hc : c < t.size :=
+      Nat.lt_trans (dealiased_children_lt s hso hi c (by simp [hg, Node.children])) hi
+    exact h.2 i hi c hc hg
+
+/-- the tree of corpus/C10/demorgan-alias-chain.ops just before `transform_negated_joins`:
+    alias chain 8 → 7 → 6 (depth 2) referenced by volume 0; 6 = S0 ∧ S1 -/
+def aliasChainWitness : Tree :=
+  let w := ins (ins (ins (ins Tree.empty (.surface 0)) (.surface 1)) (.surface 2)) (.surface 3)
+  let w := ins w (.joined .and [2, 3])
+  let w := ins w (.joined .and [2, 3, 4])
+  let w := ins w (.joined .and [2, 3, 4, 5])
+  let w := ins w (.joined .or [4, 5])
+  let w := (ins w (.negated 9)).insertVolume 8
+  let w := w.insertVolume 10
+  let w := (exchange w 5 .tru).1
+  let w := (simplifyAt w 8).1
+  let w := (exchange w 4 .tru).1
+  (simplifyAt w 7).1
+
+/-- `Negated → Aliased → Negated(True)`: surface 0 = node 2, node 3 = ¬2 (volume), then
+    `exchange(2, False)` makes node 2 an alias of node 1 = ¬True -/
+def negAliasNegWitness : Tree :=
+  (exchange ((ins (ins Tree.empty (.surface 0)) (.negated 2)).insertVolume 3) 2 .fls).1
 
 end CelerVerif.Csg
